@@ -33,7 +33,7 @@ def step_hook(name, i):
         s.yield_point(("step", f"{name}:{i}"))
 
 
-TOPOLOGIES = ("chain", "diamond", "multi_saved", "multi_discard")
+TOPOLOGIES = ("chain", "diamond", "multi_saved", "multi_discard", "multi_unsaved")
 
 
 def build_classes(topo, fail=None, n=NCHUNKS, rec=None, hook=step_hook, save_side=True):
@@ -51,8 +51,10 @@ def build_classes(topo, fail=None, n=NCHUNKS, rec=None, hook=step_hook, save_sid
         b = H.samekind_map("pb", "src", "ab", "vb", mul=2, add=0, fail_at=fa("pb"), rec=rec, step_hook=hook, rechunk_on_save=False)
         c = H.combine("pc", ("pa", "pb"), ("va", "vb"), fail_at=fa("pc"), rec=rec, step_hook=hook, rechunk_on_save=False)
         return [src, a, b, c], "pc", ("src", "pa", "pb", "pc")
-    if topo in ("multi_saved", "multi_discard"):
-        sw = {"mx": strax.SaveWhen.ALWAYS, "my": strax.SaveWhen.ALWAYS if topo == "multi_saved" else strax.SaveWhen.NEVER}
+    if topo in ("multi_saved", "multi_discard", "multi_unsaved"):
+        # multi_unsaved: neither output has a saver - the mailbox of the consumed output owns no thread of its own
+        sw = {"mx": strax.SaveWhen.NEVER if topo == "multi_unsaved" else strax.SaveWhen.ALWAYS,
+              "my": strax.SaveWhen.ALWAYS if topo == "multi_saved" else strax.SaveWhen.NEVER}
         m = H.multi(("mx", "my"), "src", fail_at=fa("mx"), save_when=sw, rec=rec, step_hook=hook)
         z = H.rowmap("pz", "mx", fail_at=fa("pz"), rec=rec, step_hook=hook, rechunk_on_save=False)
         return [src, m, z], "pz", ("src", "mx", "my", "pz")
